@@ -81,7 +81,7 @@ harnesses! {
     fn c13_remove_from_3 [unwind 6] (s) { remove_body(s, 3) }
     fn c13_eq_matches_model_2x2 [unwind 6] (s) { eq_model_body(s, 2, 2) }
     fn c13_eq_matches_model_1x2 [unwind 6] (s) { eq_model_body(s, 1, 2) }
-    fn c13_merge_1_and_2 [unwind 6] (s) { merge_body(s, 1, 2) }
+    fn c13t_merge_1_and_2 [unwind 6] (s) { merge_body(s, 1, 2) }
     fn c13_merge_2_and_1 [unwind 6] (s) { merge_body(s, 2, 1) }
     fn c13t_insert_into_4 [unwind 7] (s) { insert_body(s, 4) }
     fn c13t_lookup_in_5 [unwind 8] (s) { lookup_body(s, 5) }
